@@ -113,4 +113,28 @@ Definition run_C15 (c : case_C15) : otree :=
   let '(l, alive) := run_obs (init_state first_id) h in
   T [T l; ob alive].
 
-Definition agree_C15 : case_C15 -> otree -> bool := agree_det run_C15.
+(* The wording after `err:` is not part of the property.  The harness renders an err: reply whose text it does
+   not recognise as the generic kind 99; it agrees with EVERY err: kind of the model (same position, same
+   reply count).  Everything else - ok: replies with their ids / windows / counts, notices, liveness - is
+   compared exactly. *)
+Definition is_err_other (o : otree) : bool :=
+  match o with T [L 1; L 99; _] => true | _ => false end.
+Definition reply_agree (model impl : otree) : bool :=
+  if is_err_other impl then match model with T (L 1 :: _) => true | _ => false end
+  else otree_eqb model impl.
+Fixpoint list_agree (f : otree -> otree -> bool) (ms is_ : list otree) : bool :=
+  match ms, is_ with
+  | [], [] => true
+  | m :: mr, i :: ir => f m i && list_agree f mr ir
+  | _, _ => false
+  end.
+Definition cmd_agree (model impl : otree) : bool :=
+  match model, impl with
+  | T ms, T is_ => list_agree reply_agree ms is_
+  | _, _ => otree_eqb model impl
+  end.
+Definition agree_C15 (c : case_C15) (o : otree) : bool :=
+  match run_C15 c, o with
+  | T [T mc; a], T [T ic; b] => list_agree cmd_agree mc ic && otree_eqb a b
+  | m, _ => otree_eqb m o
+  end.
